@@ -16,3 +16,12 @@ func (pool *TxPool) VerifForcePut(tx *types.Transaction) error {
 
 // VerifAll lists every tx the pool holds.
 func (pool *TxPool) VerifAll() []*types.Transaction { return pool.all.List(All) }
+
+// VerifRelease drops the references of the pool of a scratch node the harness is done with (the
+// push tracker's loop goroutine never ends and keeps the pool reachable). The pool must not be
+// used afterwards.
+func (pool *TxPool) VerifRelease() {
+	pool.appState, pool.bus, pool.statsCollector, pool.head = nil, nil, nil, nil
+	pool.all, pool.shortHashAll, pool.txSyncCounts, pool.executableTxs, pool.pendingTxs = nil, nil, nil, nil, nil
+	pool.knownDeferredTxs, pool.deferredTxs, pool.txSubscription = nil, nil, nil
+}
